@@ -168,6 +168,7 @@ def gen_tree(rng, cfg=None):
         mdirs.append(d)
     manifests = {}     # path -> dict(p, entries)
     mpaths = {}        # dir -> [manifest paths]
+    chain_parent = {}  # third Manifest of a directory -> the second one, which references it
     for d in mdirs:
         if d == '':
             mp = top
@@ -182,6 +183,16 @@ def gen_tree(rng, cfg=None):
             if extra not in taken:
                 manifests[extra] = {'p': extra, 'entries': []}
                 mpaths[d].append(extra)
+                if rng.random() < cfg.get('p_chain3', 0.3):
+                    # a chain of three Manifests in one directory: primary -> extra -> extra2
+                    c2 = rng.choice(COMPS)
+                    base2 = rng.choice([b for b in ('Manifest.files', 'Manifest.b', 'Manifest-extra', 'Manifest.extra')
+                                        if not os.path.basename(extra).startswith(b)])
+                    extra2 = pjoin(d, base2 + ('.' + c2 if c2 else ''))
+                    if extra2 not in taken and extra2 not in manifests:
+                        manifests[extra2] = {'p': extra2, 'entries': []}
+                        mpaths[d].append(extra2)
+                        chain_parent[extra2] = extra
     for mp in manifests:
         taken.add(mp)
     # IGNOREs
@@ -281,6 +292,8 @@ def gen_tree(rng, cfg=None):
             cands = [top]
         cands.sort(key=lambda o: -len(os.path.dirname(o)))
         parent = cands[0] if rng.random() < 0.75 else rng.choice(cands)
+        if mp in chain_parent:
+            parent = chain_parent[mp]
         pd = os.path.dirname(parent)
         manifests[parent]['entries'].append(
             {'tag': 'MANIFEST', 'path': os.path.relpath(mp, pd or '.'), 'hashes': pick_hashes(rng) or ['SHA256']})
